@@ -35,6 +35,8 @@ type Cfg struct {
 	ErrRd       string // reader | stderr | none
 	Inputs      []int  // Join: number of elements per input
 	Ops         int    // Throttling
+	Idle        bool   // the producer goes idle after its last element instead of closing the input
+	Any         bool   // the element type is `any` and every other element is a nil interface value
 }
 
 // Aff is an affine map x -> A*x+B; composition is a non-commutative monoid with identity {1,0}.
@@ -80,6 +82,10 @@ func errs(c Cfg, ch <-chan error) {
 }
 
 func Scenario(c Cfg) {
+	if c.Any {
+		anyScenario(c)
+		return
+	}
 	ctx, cancel := context.WithCancel(context.Background())
 	var closed env.Shared
 	mkin := func(tag string, from, n int) <-chan int {
@@ -95,6 +101,10 @@ func Scenario(c Cfg) {
 					env.Log("in-closed")
 					return
 				}
+			}
+			if c.Idle {
+				env.Log("idle")
+				return
 			}
 			closed.Add(1)
 			close(in)
@@ -136,6 +146,20 @@ func Scenario(c Cfg) {
 	switch c.Stage {
 	case "map":
 		out2(pipe.Map(ctx, mkin("sent", 1, c.K), lift()))
+	case "map2":
+		// one F value shared by two stages: the first one fails on the masked elements, the second one runs over
+		// elements that never fail and must be unaffected by what happened in the first
+		f := lift()
+		out2(pipe.Map(ctx, mkin("sent", 1, c.K), f))
+		o2, e2 := pipe.Map(ctx, mkin("sentb", 33, c.K), f)
+		consume("gotb", o2, -1, 0, cancel)
+		env.WatchClosed("errb", e2)
+		go func() {
+			for e := range e2 {
+				env.Log("errb", e.Error())
+			}
+			env.Log("errb-eof")
+		}()
 	case "fmap":
 		arrow := func(ctx context.Context, x int, out chan<- int) error {
 			env.Log("call", x)
@@ -196,6 +220,9 @@ func Scenario(c Cfg) {
 			xs[i] = i + 1
 		}
 		ch := pipe.Seq(xs...)
+		for i := range xs { // the caller reuses its slice after the call
+			xs[i] = -1
+		}
 		for _, x := range pipe.ToSeq(ch) {
 			env.Log("got", x)
 		}
@@ -252,4 +279,117 @@ func Scenario(c Cfg) {
 		go func() { env.Log("cancel"); cancel() }()
 	}
 	_ = errFail
+}
+
+// AnyElem is element i (1-based) of the `any`-typed scenarios: odd positions hold a nil interface value.
+func AnyElem(i int) any {
+	if i%2 == 1 {
+		return nil
+	}
+	return i
+}
+
+// anyScenario runs a stage instantiated at element type `any` with functions that keep every element
+// (identity, always-true predicate): the output must be the input, nil interface values included.
+func anyScenario(c Cfg) {
+	ctx, cancel := context.WithCancel(context.Background())
+	mkin := func(n int) <-chan any {
+		in := make(chan any, c.Cap)
+		go func() {
+			for i := 1; i <= n; i++ {
+				select {
+				case in <- AnyElem(i):
+					env.Log("sent", i)
+				case <-ctx.Done():
+					close(in)
+					return
+				}
+			}
+			close(in)
+			env.Log("in-closed")
+		}()
+		return in
+	}
+	id := pipe.Pure(func(x any) any { return x })
+	yes := pipe.Pure(func(x any) bool { return true })
+	drain := func(name string, ch <-chan any) { consume(name, ch, -1, 0, cancel) }
+	switch c.Stage {
+	case "map":
+		out, exx := pipe.Map(ctx, mkin(c.K), id)
+		drain("got", out)
+		errs(c, exx)
+	case "fmap":
+		out, exx := pipe.FMap(ctx, mkin(c.K), pipe.LiftF(func(ctx context.Context, x any, out chan<- any) error {
+			select {
+			case out <- x:
+			case <-ctx.Done():
+			}
+			return nil
+		}))
+		drain("got", out)
+		errs(c, exx)
+	case "filter":
+		drain("got", pipe.Filter(ctx, mkin(c.K), yes))
+	case "takewhile":
+		drain("got", pipe.TakeWhile(ctx, mkin(c.K), yes))
+	case "take":
+		drain("got", pipe.Take(ctx, mkin(c.K), c.N))
+	case "partition":
+		l, r := pipe.Partition(ctx, mkin(c.K), yes)
+		drain("l", l)
+		drain("r", r)
+	case "join":
+		// input 0 carries nil, 12, 13, ...; the other inputs carry their usual distinct integers
+		var ins []<-chan any
+		for i, n := range c.Inputs {
+			in := make(chan any, c.Cap)
+			ins = append(ins, in)
+			go func() {
+				for j := 0; j < n; j++ {
+					var v any = 10*(i+1) + 1 + j
+					if i == 0 && j == 0 {
+						v = nil
+					}
+					select {
+					case in <- v:
+					case <-ctx.Done():
+						close(in)
+						return
+					}
+				}
+				close(in)
+			}()
+		}
+		out := pipe.Join(ctx, ins...)
+		env.WatchClosed("got", out)
+		go func() {
+			for x := range out {
+				env.Log("got", x)
+			}
+			env.Log("got-eof", len(c.Inputs))
+		}()
+	case "throttle":
+		drain("got", pipe.Throttling(ctx, mkin(c.K), 1, 4*time.Nanosecond))
+	case "seq":
+		xs := make([]any, c.K)
+		for i := range xs {
+			xs[i] = AnyElem(i + 1)
+		}
+		for _, x := range pipe.ToSeq(pipe.Seq(xs...)) {
+			env.Log("got", x)
+		}
+		env.Log("got-eof")
+	case "unfold":
+		// the seed alternates between a nil interface value and 1
+		out, exx := pipe.Unfold(ctx, c.Cap, any(nil), pipe.Pure(func(x any) any {
+			if x == nil {
+				return 1
+			}
+			return nil
+		}))
+		consume("got", out, c.K+1, c.K, cancel)
+		errs(c, exx)
+	default:
+		panic("unknown any-stage " + c.Stage)
+	}
 }
